@@ -35,7 +35,7 @@ static const std::vector<uint64_t>& NS() { static std::vector<uint64_t> v = buil
 
 static std::vector<double> build_thetas(uint64_t ns, bool thorough) {
   std::vector<double> v;
-  const int nlog = thorough ? 600 : 200, nlin = thorough ? 600 : 200;
+  const int nlog = thorough ? 2000 : 400, nlin = thorough ? 2000 : 400;
   for (int i = 0; i < nlog; ++i) v.push_back(std::pow(10.0, -12.0 * (nlog - i) / nlog));        // 1e-12 .. <1
   for (int i = 1; i <= nlin; ++i) v.push_back(static_cast<double>(i) / nlin);                    // .. 1.0
   // sketch thetas are theta64 / 2^63: smallest values, and p = 0.5 / 0.1 style starting points
@@ -157,7 +157,7 @@ static void run_icon(uint8_t lg_k) {
   const uint64_t k = 1ULL << lg_k;
   // coupon counts: dense up to 8k (capped), dense around the polynomial/exponential switch (5.6k / 5.7k),
   // then pairs (C, C+1) on a geometric grid up to 48k (a sketch row holds at most 64 coupons)
-  const uint64_t cap = G().thorough() ? 400000 : 60000;
+  const uint64_t cap = G().thorough() ? 3000000 : 200000;
   std::vector<uint64_t> cs;
   const uint64_t dense = std::min<uint64_t>(8 * k, cap);
   for (uint64_t c = 0; c <= dense; ++c) cs.push_back(c);
@@ -194,7 +194,7 @@ static void run_bitmap(uint8_t lg_k) {
   describe("HarmonicNumbers::getBitMapEstimate lg_k=" + std::to_string(lg_k));
   const int k = 1 << lg_k;
   // exact k * (H_k - H_{k-hits}) by summation from the top
-  const int step = (k <= 4096 || G().thorough()) ? 1 : std::max(1, k / 4096);
+  const int step = (k <= 65536 || G().thorough()) ? 1 : std::max(1, k / 65536);
   long double tail = 0;   // sum_{j=k-hits+1..k} 1/j
   double prev = -1; uint64_t h = lg_k, n_pts = 0;
   for (int hits = 0; hits < k; ++hits) {
